@@ -42,9 +42,10 @@ func needText(k string, omit int) string { // omit: bitmask of mandatory substat
 }
 
 type Input struct {
-	Text      string `json:"text"`
-	MustError bool   `json:"must_error"`
-	Why       string `json:"why,omitempty"`
+	Text       string `json:"text"`
+	MustError  bool   `json:"must_error"`
+	MustAccept bool   `json:"must_accept,omitempty"`
+	Why        string `json:"why,omitempty"`
 }
 
 var nodeT = reflect.TypeOf((*yang.Node)(nil)).Elem()
@@ -209,6 +210,9 @@ func check(in Input) (f *fail, accepted bool) {
 		return &fail{"panic", "error or AST", pt}, false
 	}
 	if err != nil {
+		if in.MustAccept {
+			return &fail{"rejected-must-accept", "accepted: " + in.Why, err.Error()}, false
+		}
 		return nil, false
 	}
 	if in.MustError {
@@ -372,10 +376,31 @@ func run(c *core.Ctx) {
 			} else {
 				one(Input{Text: render(chain, fmt.Sprintf("%s { %s }", k, needText(k, 0))), MustError: unknown, Why: why})
 			}
+			// a prefixed keyword is an extension statement whatever its local name is: it must be
+			// accepted exactly where any other extension statement is, and filed in the extensions list
+			if !meta(k) && k != "p:ext" {
+				_, accExt := check(Input{Text: render(chain, "p:e z;")})
+				in := Input{Text: render(chain, "p:"+k+" z;")}
+				_, accK := check(in)
+				if accExt && !accK {
+					in.MustAccept, in.Why = true, "a prefixed keyword is an extension statement whatever its local name (p:e z; is accepted here)"
+					one(in)
+				} else {
+					one(Input{Text: render(chain, "p:"+k+" z; "+base), MustError: unknown, Why: why})
+				}
+			}
 			// mandatory substatements omitted: must be rejected wherever the complete child is accepted
 			if n := len(need[k]); n > 0 {
 				for omit := 1; omit < 1<<n; omit++ {
 					one(Input{Text: render(chain, stmt(k, "y", omit)), MustError: true, Why: "mandatory substatement of " + k + " absent"})
+					// ... also when an extension statement with the same local name stands in its place
+					var exts []string
+					for i, nd := range need[k] {
+						if omit&(1<<i) != 0 {
+							exts = append(exts, "x:"+nd[1])
+						}
+					}
+					one(Input{Text: render(chain, fmt.Sprintf("%s y { %s %s }", k, needText(k, omit), strings.Join(exts, " "))), MustError: true, Why: "mandatory substatement of " + k + " absent (an extension statement of the same local name does not count)"})
 				}
 				if n == 1 && acc1 { // the mandatory substatement given twice: second occurrence of a single-valued substatement
 					if need[k][0][0] != "deviate" {
@@ -389,6 +414,13 @@ func run(c *core.Ctx) {
 		if n := len(need[last]); n > 0 && len(chain) == 1 {
 			for omit := 1; omit < 1<<n; omit++ {
 				one(Input{Text: fmt.Sprintf("%s x0 { %s }", last, needText(last, omit)), MustError: true, Why: "mandatory substatement absent"})
+				var exts []string
+				for i, nd := range need[last] {
+					if omit&(1<<i) != 0 {
+						exts = append(exts, "x:"+nd[1])
+					}
+				}
+				one(Input{Text: fmt.Sprintf("%s x0 { %s %s }", last, needText(last, omit), strings.Join(exts, " ")), MustError: true, Why: "mandatory substatement absent (an extension of the same local name does not count)"})
 			}
 		}
 	}
